@@ -155,6 +155,43 @@ func randAncillary(rng *core.RNG, max int, big bool) []imggen.PNGChunk {
 	return out
 }
 
+// zlibWindow rewrites the header of a zlib stream so that it declares a window of 2^(cinfo+8)
+// bytes (CMF = cinfo<<4 | 8, FLG check bits recomputed). The stream stays valid as long as the
+// window is at least as large as the data: writers such as libpng declare the smallest window
+// that fits (CMF 0x08 ... 0x68 for small payloads), Go's writer always declares 32 KiB (0x78).
+func zlibWindow(stream []byte, dataLen int, cinfo int) []byte {
+	for cinfo < 7 && (1<<(uint(cinfo)+8)) < dataLen {
+		cinfo++
+	}
+	out := append([]byte{}, stream...)
+	if len(out) < 2 {
+		return out
+	}
+	out[0] = byte(cinfo<<4) | 8
+	out[1] &= 0xE0
+	if rem := (int(out[0])<<8 | int(out[1])) % 31; rem != 0 {
+		out[1] += byte(31 - rem)
+	}
+	return out
+}
+
+// colourChunks returns tRNS / bKGD / sBIT chunks of the size the colour type prescribes. Without a
+// palette they may stand anywhere between IHDR and IDAT, in front of iCCP too.
+func colourChunks(rng *core.RNG, ct uint8) []imggen.PNGChunk {
+	var out []imggen.PNGChunk
+	n := map[uint8]int{0: 2, 2: 6, 4: 2, 6: 6}[ct]
+	if n == 0 {
+		return nil
+	}
+	if (ct == 0 || ct == 2) && rng.Bool() {
+		out = append(out, imggen.PNGChunk{Type: "tRNS", Data: rng.Bytes(n)})
+	}
+	if rng.Bool() {
+		out = append(out, imggen.PNGChunk{Type: "bKGD", Data: rng.Bytes(n)})
+	}
+	return out
+}
+
 func be32c(v uint32) []byte { return []byte{byte(v >> 24), byte(v >> 16), byte(v >> 8), byte(v)} }
 
 func pngSpecFor(w, h uint32, ct, depth, interlace uint8, rng *core.RNG) imggen.PNGSpec {
@@ -194,8 +231,13 @@ func randJPEGSegs(rng *core.RNG, max int, big bool) []imggen.JPEGSeg {
 			out = append(out, imggen.JPEGSeg{Marker: 0xDB, Payload: pl, Name: "DQT16"})
 		case 11: // several Huffman tables in one DHT segment (class / id nibbles 0x00, 0x10, 0x01, 0x11)
 			var pl []byte
+			hi := rng.Intn(2) == 0 // destinations 2 and 3 (extended and progressive frames may use four tables per class)
 			for t := 0; t < 1+rng.Intn(4); t++ {
-				pl = append(pl, []byte{0x00, 0x10, 0x01, 0x11}[t])
+				id := []byte{0x00, 0x10, 0x01, 0x11}[t]
+				if hi {
+					id += 2
+				}
+				pl = append(pl, id)
 				counts := make([]byte, 16)
 				total := 0
 				for k := range counts {
@@ -530,6 +572,15 @@ func hostileSpecials() []genFile {
 			c := append([]byte{0xFF, 0xD8}, sof(m, good[:n])...)
 			c = append(c, 0xFF, 0xD9)
 			out = append(out, genFile{fmt.Sprintf("jpeg SOF%x with %d payload bytes", m, n), c, imggen.Truth{Format: "JPEG"}})
+			// the short SOF behind a complete one-chunk profile, and behind the first of two chunks
+			// (a profile half assembled when the frame header turns out to be unusable)
+			for _, total := range []int{1, 2} {
+				seg := imggen.ICCChunkSeg(1, total, []byte("profile bytes"))
+				d := append([]byte{0xFF, 0xD8, 0xFF, seg.Marker, byte((len(seg.Payload) + 2) >> 8), byte(len(seg.Payload) + 2)}, seg.Payload...)
+				d = append(d, sof(m, good[:n])...)
+				d = append(d, 0xFF, 0xD9)
+				out = append(out, genFile{fmt.Sprintf("jpeg ICC chunk 1 of %d then SOF%x with %d payload bytes", total, m, n), d, imggen.Truth{Format: "JPEG"}})
+			}
 		}
 	}
 	// segment length fields 0 and 1
